@@ -8,7 +8,9 @@
    pointer aliasing that this model cannot express.  That clause is PARTIAL: it
    is tested on every run by the harness (goharness/cmd/difftree), which mutates
    the original after each copy behaviour and compares the copy with a deep
-   snapshot; the checker [check_C07] receives both readings of the copy. *)
+   snapshot; the checker [check_C07] receives both readings of the copy.
+   The aliasing clause itself is proved on a heap model of Entry.Copy and the
+   tree mutators in Props/C07Heap.v (Model/Heap.v, Proof/C07Heap.v). *)
 From Coq Require Import List Bool Arith String.
 Import ListNotations.
 From Mv Require Import Model.Entry Model.DiffApply Proof.EntryFacts Proof.C07.
